@@ -9,8 +9,8 @@
    frame received on ANY connection, loss of ANY connection - that satisfies the
    hypotheses [ev_ok] (Model/ChanMgr.v, end of file) at every step. *)
 From Coq Require Import ZArith List Bool String.
-From BV Require Import Gen.C09Tables Gen.C09Skeleton Model.ChanMgr Proofs.ChanMgrLib Proofs.ChanMgr
-  Proofs.ChanMgrSkeleton Proofs.ChanMgrDet Proofs.ChanMgrDetStep Proofs.ChanMgrReopen.
+From BV Require Import Gen.C09Tables Gen.C09Skeleton Gen.C09Ident Model.ChanMgr Proofs.ChanMgrLib Proofs.ChanMgr
+  Proofs.ChanMgrSkeleton Proofs.ChanMgrDet Proofs.ChanMgrDetStep Proofs.ChanMgrReopen Proofs.ChanMgrIds.
 Import ListNotations.
 Open Scope Z_scope.
 
@@ -42,6 +42,47 @@ Print Assumptions C09_cleanup_complete.
 Theorem C09_skeleton_matches_source : skeleton_of_source = skeleton_modelled.
 Proof. vm_compute. reflexivity. Qed.
 Print Assumptions C09_skeleton_matches_source.
+
+(* ---- the signalling identifier allocator *)
+(* The model's allocator IS the function the translator reads off the statements of
+   ChannelManager.next_identifier on every run (arithmetic, modulus, replacement of 0). *)
+Theorem C09_identifier_matches_source : forall m h,
+  nid m h = next_identifier_of_source (match aget h (m_ids m) with Some v => v | None => id_default end).
+Proof. reflexivity. Qed.
+Print Assumptions C09_identifier_matches_source.
+
+(* In EVERY state (so after every history, however long) the identifier handed out on a
+   connection is one byte and not 0 ... *)
+Theorem C09_identifier_range : forall m h, 1 <= nid m h <= 255.
+Proof. exact nid_range. Qed.
+Print Assumptions C09_identifier_range.
+
+(* ... the one handed out next is its successor, 255 being followed by 1, so consecutive
+   identifiers differ ... *)
+Theorem C09_identifier_successor : forall m h,
+  nid (next_id m h) h = (if Z.eqb (nid m h) 255 then 1 else nid m h + 1) /\
+  nid (next_id m h) h <> nid m h.
+Proof. intros m h. split; [apply nid_successor|apply nid_consecutive_differ]. Qed.
+Print Assumptions C09_identifier_successor.
+
+(* ... and every request, configuration request, disconnection request and credit frame the
+   manager sends, for any event in any state, hence along any history, carries an identifier
+   of 1..255 (responses echo the peer's identifier). *)
+Theorem C09_sent_identifiers_valid : forall m e f i,
+  In f (snd (step m e)) -> own_id f = Some i -> 1 <= i <= 255.
+Proof. exact sent_identifiers_valid. Qed.
+Print Assumptions C09_sent_identifiers_valid.
+
+Theorem C09_run_identifiers_valid : forall es m, Forall ids_valid (snd (run m es)).
+Proof. exact run_identifiers_valid. Qed.
+Print Assumptions C09_run_identifiers_valid.
+
+(* the wrap: after 255 comes 1; a fresh connection starts at 1 *)
+Example C09_identifier_wrap :
+  nid (m_init [] []) 7 = 1 /\
+  nid (with_ids (m_init [] []) [(7, 254)]) 7 = 255 /\
+  nid (with_ids (m_init [] []) [(7, 255)]) 7 = 1.
+Proof. vm_compute. repeat split. Qed.
 
 (* ---- tables_exact: refinement to the set of channels in use *)
 (* `channels` contains (handle, cid, channel) exactly when the channel object exists, belongs
